@@ -312,6 +312,19 @@ def step (s : St) (j : Json) : R (St × Json) := do
       match h1.graphToProv st with
       | (h2, .ok nd) => return (← { s with h := h2 }.bindCont j nd, Json.mkObj [("err", Json.null), ("nodes", nodes), ("edges", edges)])
       | (h2, .error e) => return ({ s with h := h2 }, errJson (some e))
+  | "to_dot" =>
+    let c ← s.cont j "c"
+    let b (k : String) : R Bool := do (← j.getObjVal? k).getBool?
+    let o : DotOpts := ⟨← b "nary", ← b "labels", ← b "eattrs", ← b "rattrs"⟩
+    let st := s.h.toDot o c
+    let optS : Option String → Json := fun x => match x with | some v => Json.str v | none => Json.null
+    return (s, Json.mkObj [
+      ("nodes", Json.arr (st.nodes.map (fun n => Json.mkObj [("name", Json.str n.name), ("shape", Json.str n.shape),
+          ("label", Json.str n.label), ("html", Json.bool n.html), ("url", optS n.url), ("cluster", optS n.cluster)])).toArray),
+      ("edges", Json.arr (st.edges.map (fun e => Json.mkObj [("tail", Json.str e.tail), ("head", Json.str e.head),
+          ("label", optS e.label), ("arrowhead", optS e.arrowhead), ("style", optS e.style), ("color", optS e.color)])).toArray),
+      ("clusters", Json.arr (st.clusters.map (fun c => Json.mkObj [("name", Json.str c.name), ("label", Json.str c.label),
+          ("url", Json.str c.url)])).toArray)])
   | "enc_xml" =>
     let c ← s.cont j "c"
     let ft ← (← j.getObjVal? "ft").getBool?
